@@ -12,7 +12,7 @@ import (
 func init() {
 	register(&propInfo{
 		ID:          "C07",
-		Explanation: "Path, lock and sibling-agreement analysis of channel streaming: (R07.1) in the forwarding goroutine, between adding a registered channel to the select set and the next select, the response announcing that channel is written through the connection's locked message writer; the forwarder is started once (sync.Once) and is the only receiver of registrations; (R07.2) after a successful registration the dispatcher emits no reply of its own; (R07.3) the client's buffer is a FIFO: push and pop ends of the list are opposite; (R07.4) intake is decoupled from the consumer: the sink's hand-over into the intake channel is a select alternative to the subscription context, and the buffering goroutine never disables or rewrites a select case once the case list is built (it only appends the consumer case when there is something to deliver); (R07.5) value and close callbacks of one sink run under that sink's lock, which is only ever taken while the sink-table lock is held (lock coupling, so frames of one stream cannot overtake each other); (R07.6) the forwarder's two parallel slices (select cases and channel ids) are updated by the same removal scheme; (R07.7) inbound frames are executed in arrival order by one executor with synchronous dispatch of responses, values and closes. (R07.10) a sink leaves the table only together with its close. (R07.11) no value is filtered by a test of its payload bytes.",
+		Explanation: "Path, lock and sibling-agreement analysis of channel streaming: (R07.1) in the forwarding goroutine, between adding a registered channel to the select set and the next select, the response announcing that channel is written through the connection's locked message writer; the forwarder is started once (sync.Once) and is the only receiver of registrations; (R07.2) after a successful registration the dispatcher emits no reply of its own; (R07.3) the client's buffer is a FIFO: push and pop ends of the list are opposite; (R07.4) intake is decoupled from the consumer: the sink's hand-over into the intake channel is a select alternative to the subscription context, and the buffering goroutine never disables or rewrites a select case once the case list is built (it only appends the consumer case when there is something to deliver); (R07.5) value and close callbacks of one sink run under that sink's lock, which is only ever taken while the sink-table lock is held (lock coupling, so frames of one stream cannot overtake each other); (R07.6) the forwarder's two parallel slices (select cases and channel ids) are updated by the same removal scheme; (R07.7) inbound frames are executed in arrival order by one executor with synchronous dispatch of responses, values and closes. (R07.10) a sink leaves the table only together with its close. (R07.11) no value is filtered by a test of its payload bytes. (R07.12) no channel id is arithmetic on a length; (R07.13) the forwarder never receives from one channel directly; (R07.14) an element leaves the client-side buffer only when it was handed to the caller.",
 		NotDecided:  "Element values and the index arithmetic of the swap-remove beyond the two slices using the same scheme; real producer/consumer speeds.",
 		Assumptions: []string{"container/list semantics", "reflect.Select picks among the cases it is given; a zero Chan disables a case"},
 		Run:         runC07,
@@ -135,6 +135,30 @@ func runC07(c *Ctx) {
 	c.rule("R07.5", "sink callbacks under the sink lock, taken only while the table lock is held")
 	c.rule("R07.6", "parallel slices of the forwarder use the same removal scheme")
 	c.rule("R07.7", "frames executed in arrival order with synchronous dispatch")
+	c.rule("R07.14", "lossless: a value leaves the client-side buffer only by having been handed to the caller")
+	c.removedOnlyWhenDelivered("R07.14")
+	c.ruleOpt("R07.13", "the forwarder takes values only through its one reflect.Select over all open channels: it never receives from a particular channel directly (draining one stream in a loop starves the others and the intake of new channels)")
+	if w.OutChans != nil {
+		n := 0
+		for _, g := range c.region(w.OutChans) {
+			allInstrsRaw(g, func(in ssa.Instruction) {
+				ci, ok := in.(ssa.CallInstruction)
+				if !ok {
+					return
+				}
+				switch calleeName(ci) {
+				case "(reflect.Value).TryRecv", "(reflect.Value).Recv":
+					n++
+					c.bad("R07.13", fmt.Sprintf("%s: direct receive from a user channel", fname(g)), c.ipos(in), "the forwarder receives from one channel directly instead of through the select over all of them: as long as that channel has values ready no other stream's value is forwarded and no new channel is registered — a fast producer stalls every other subscription on the connection")
+				}
+			})
+		}
+		if n == 0 {
+			c.ok("R07.13", fmt.Sprintf("%s: values taken only through reflect.Select", fname(w.OutChans)), p.pos(w.OutChans.Pos()), "no Recv/TryRecv in the forwarder's region")
+		}
+	}
+	c.ruleOpt("R07.12", "channel ids are never derived from the size of a collection (which shrinks when a stream ends, so a later stream would get the id of one that is still live)")
+	c.idsNotFromLength("R07.12")
 
 	// ---- R07.1
 	if c.needWS("R07.1", "outChans", w.OutChans) {
@@ -580,15 +604,25 @@ func (c *Ctx) arrivalOrderRule(rule string) {
 			return false
 		}
 		n := 0
-		p.coneInstrs(w.ReadFrame, func(in ssa.Instruction) {
-			g, ok := in.(*ssa.Go)
-			if !ok || p.unbound(staticCallee(g)) != w.Reader {
-				return
+		// the function that takes a frame off the socket: the one that queues it, or — when the
+		// queueing itself sits in a helper — the helper's caller
+		top := w.ReadFrame
+		for up := 0; up < 3; up++ {
+			p.coneInstrs(top, func(in ssa.Instruction) {
+				g, ok := in.(*ssa.Go)
+				if !ok || p.unbound(staticCallee(g)) != w.Reader {
+					return
+				}
+				n++
+				cons := fmt.Sprintf("%s: enqueue before starting the next read", fname(in.Parent()))
+				c.check(mustPrecedeIP(g, isEnq, 0), rule, cons, c.ipos(g), "queued first", "the next frame can be read and queued before this one: frames are executed out of arrival order")
+			})
+			callers := p.syncCallers(top)
+			if n > 0 || len(callers) != 1 || p.asyncUsed(top) || callers[0].Parent() == r.FnLoop {
+				break
 			}
-			n++
-			cons := fmt.Sprintf("%s: enqueue before starting the next read", fname(in.Parent()))
-			c.check(mustPrecedeIP(g, isEnq, 0), rule, cons, c.ipos(g), "queued first", "the next frame can be read and queued before this one: frames are executed out of arrival order")
-		})
+			top = callers[0].Parent()
+		}
 		if n == 0 {
 			c.bad(rule, fmt.Sprintf("%s: enqueue before starting the next read", fname(w.ReadFrame)), p.pos(w.ReadFrame.Pos()), "the frame reader no longer restarts the socket read after queueing a frame")
 		}
@@ -917,5 +951,81 @@ func (c *Ctx) valuesNotFiltered(rule string) {
 	}
 	if n == 0 {
 		c.und(rule, "value hand-over", "-", "neither the sink callback invocation nor the sink's queueing was found")
+	}
+}
+
+// idsNotFromLength: R07.12. Every uint64 the forwarder's region puts into its id list (or a helper's
+// id list) does not depend on len() of anything: ids come from a counter that only grows.
+func (c *Ctx) idsNotFromLength(rule string) {
+	w := c.ws()
+	if w.OutChans == nil {
+		return
+	}
+	isLen := func(v ssa.Value) bool {
+		call, ok := v.(*ssa.Call)
+		if !ok {
+			return false
+		}
+		b, ok := call.Common().Value.(*ssa.Builtin)
+		return ok && (b.Name() == "len" || b.Name() == "cap")
+	}
+	// arithmetic on a length: conversions, + - *, phis, single-assignment locals — no loads of
+	// elements, no calls other than len/cap themselves
+	var arith func(v ssa.Value, d int) bool
+	arith = func(v ssa.Value, d int) bool {
+		if v == nil || d > 8 {
+			return false
+		}
+		if isLen(v) {
+			return true
+		}
+		switch x := v.(type) {
+		case *ssa.Convert:
+			return arith(x.X, d+1)
+		case *ssa.ChangeType:
+			return arith(x.X, d+1)
+		case *ssa.BinOp:
+			return arith(x.X, d+1) || arith(x.Y, d+1)
+		case *ssa.Phi:
+			for _, e := range x.Edges {
+				if arith(e, d+1) {
+					return true
+				}
+			}
+		case *ssa.UnOp:
+			if al, ok := x.X.(*ssa.Alloc); ok && x.Op == token.MUL {
+				for _, ref := range *al.Referrers() {
+					if st, ok := ref.(*ssa.Store); ok && st.Addr == ssa.Value(al) && arith(st.Val, d+1) {
+						return true
+					}
+				}
+			}
+		}
+		return false
+	}
+	n := 0
+	for _, g := range c.region(w.OutChans) {
+		allInstrsRaw(g, func(in ssa.Instruction) {
+			st, ok := in.(*ssa.Store)
+			if !ok {
+				return
+			}
+			ia, ok := st.Addr.(*ssa.IndexAddr)
+			if !ok {
+				return
+			}
+			bt, ok := st.Val.Type().Underlying().(*types.Basic)
+			if !ok || bt.Kind() != types.Uint64 {
+				return
+			}
+			n++
+			_ = ia
+			construct := fmt.Sprintf("%s: channel id put into the id list", fname(g))
+			c.check(!arith(st.Val, 0), rule, construct, c.ipos(st), "not derived from a length",
+				"a channel id is computed from the length of a collection: when a stream ends the collection shrinks and the next stream is given an id that a still-live stream carries — its subscriber receives the other stream's values")
+		})
+	}
+	if n == 0 {
+		c.ok(rule, "channel ids", "-", "no id stored into an id list in the forwarder's region")
 	}
 }
